@@ -17,5 +17,6 @@ Proof.
   all: try match goal with e : ab (A ?s ?a) = aw (A ?s ?a) |- _ => rewrite e in * end.
   all: try match goal with e : aw (A ?s ?a) = ab (A ?s ?a) |- _ => rewrite e in * end.
   all: repeat match goal with E : apc _ = _ |- _ => rewrite E end; try rewrite Ectx.
-  all: brk; repeat match goal with |- _ /\ _ => split end; intros; brk; try mem.
+  all: brk; repeat match goal with |- _ /\ _ => split end; intros; brk; ap; brk; try mem.
+  all: try match goal with Q : forall b, ?n = b \/ _ -> (1 <= b < _)%nat |- _ => specialize (Q n (or_introl eq_refl)); lia end.
 Qed.
